@@ -134,6 +134,10 @@ def main():
         if os.path.exists(oldp):   # keep earlier verdicts: a change first missed and caught after strengthening
             old = json.load(open(oldp))
             meta["history"] = old.get("history", []) + [{"at_repo_head": old.get("at_repo_head"), "checks": old.get("checks")}]
+            if a.skip_baseline and "suite_passes" in old:   # re-check after strengthening: the suite verdict was established before
+                meta["suite_passes"] = old["suite_passes"]
+                meta["ran"] = [r for r in old.get("ran", []) if "baseline.py" in r["cmd"]] + meta["ran"]
+                meta["confirmed"] = bool(meta.get("builds") and meta["suite_passes"] and meta["demo_passes_without"] and meta["demo_fails_with"])
         shutil.copy(patch, os.path.join(outdir, "patch.diff"))
         for s_ in a.demo_src:
             p_ = s_ if os.path.isabs(s_) else os.path.join(src, s_)
@@ -145,6 +149,8 @@ def main():
         meta["confirmed"] = bool(meta.get("builds") and meta.get("suite_passes", True) and meta["demo_passes_without"]
                                  and meta["demo_fails_with"])
         meta["detected"] = meta["checks"][a.pid]["rc"] == 1
+        meta["confirmed"] = bool(meta.get("builds") and meta.get("suite_passes", True) and meta["demo_passes_without"]
+                                 and meta["demo_fails_with"])
         json.dump(meta, open(os.path.join(outdir, "meta.json"), "w"), indent=1)
         print("confirmed=%s detected=%s -> %s" % (meta["confirmed"], meta["detected"], outdir))
     finally:
